@@ -12,6 +12,15 @@ CLAIMED = {
             'all optional-field shapes, every enumerated payload length around the 253/65536 boundaries, every real ECDSA '
             'signature length) the solver shows that the emitted wire is one exact well-formed TLV and that parsing returns '
             'the inputs; bounded, not a proof.'),
+    'C07': ('5-C07', 'Differential check against an independent strict decoder: all buffers up to the stated length are '
+            'decided by the solver path by path, and every TL number of valid packets is made a solver variable in every '
+            'encoding form; accepts => reference accepts, and extracted fields equal. Bounded.'),
+    'C08': ('5-C08', 'For every shipped and generated model class and every value plan the solver shows the encoder output equals '
+            'an independent reference encoding for all values of the symbolic leaves, and that decoding returns them; decode-side '
+            'edits are decided differentially. Model classes are enumerated programs; bounded.'),
+    'C09': ('5-C09', 'Byte-level name identities, prefix test and canonical ordering are decided as formula equivalences over all '
+            'component types/values in the bound; URI round trips are decided by solver-driven enumeration of every byte that '
+            'reaches string formatting. Bounded.'),
 }
 NOT_YET = 'check not built yet in this revision of /verif (planned in DESIGN.md section 5)'
 NA = {
